@@ -1,43 +1,196 @@
 package main
 
-// C09: the access-instrumented JavaScript generator, DERIVED from the model.
+// C09: the access-instrumented JavaScript generator, DERIVED from the model, and
+// the per-definition simulation lemmas that tie it back to the model.
 //
 // Model/JsGen.v is a state monad over the record [jstate] (the generator's own
 // memory: output buffers, indentation, buffer name, scope stack, name counter,
-// autoescape mode, current node, the two maps).  This generator copies its
-// monadic part verbatim into Generated/JsGenTrace.v, inside a section that
-// abstracts the state through a lens
+// autoescape mode, current node, the two maps).  This generator splits the
+// monadic part of that file (from [Definition J] to [End Gen.]) into vernacular
+// sentences and writes two files next to -out:
 //
-//     St_ : Type      lget : St_ -> jstate      lput : jstate -> St_ -> St_
-//     ltick : jacc -> St_ -> St_
+// Generated/JsGenTrace.v   every sentence VERBATIM, inside [Module JT], in a
+//     section over ONE record [L : jlens] (state type, get, put, tick); only the
+//     primitives are rewritten:
+//       J A          := St_ -> outcome A * St_     (the state, hence the log,
+//                                                   survives a failure)
+//       jret jfail jlift jbind jget jmod            for that shape; jget ticks JRdOwn,
+//                                                   jmod ticks JWrOwn
+//       jabort x     := fun st => (x, st)           every literal [fun _ => OutOfModel /
+//                                                   OutOfFuel / Diverge / Crash e / Err e]
+//       jtick a      := fun st => (Ok tt, ltick a st)
+//       jblock       the sub-generator runs on the same underlying state
+//       jwalk        ticks JRdAst (pos_of n) before it looks at a node
+//       gen_file     starts from a given St_ and returns the final one
+//     A substitution that does not apply exactly once is an untranslatable item.
 //
-// and redefines only the primitives: [jget] reads the generator's record (and
-// ticks JRdOwn), [jmod f] writes it (ticks JWrOwn), [jwalk] ticks JRdAst (pos_of n)
-// before it looks at a node, [jblock] runs the sub-generator on the same St_
-// and [gen_file] starts from a given St_.  Everything else is the text of
-// Model/JsGen.v.  With St_ := jstate, lget := id, lput := fun x _ => x and
-// ltick := fun _ s => s every definition of the copy is CONVERTIBLE with the
-// original (Proofs/ConcJsProofs.v proves the equalities by reflexivity), so the
-// instrumented generator is the model itself plus a log, and follows every
-// change of Model/JsGen.v without being edited.
+// Generated/JsGenSim.v     for every J-typed definition of the copied part, in
+//     source order, [Lemma jsim_<name> : JSIM (@JT.<name> L) (@JsGen.<name>)] -- the
+//     statement is COMPUTED from the two types by the relational interpretation
+//     of Proofs/ConcJsSimBase.v (equal arguments, [jsim]-related monadic arguments,
+//     [jsim]-related results), the proof is the generic tactic of that file
+//     ([jsim_def] unfolds both sides and walks them in lockstep; [jsim_fix k] does
+//     the same by induction on the structural argument, the k-th binder from the
+//     end, which this generator reads off the header / the first [match x with]);
+//     then [jsim_jwalk] by induction on the fuel and [gen_file_sim].  So an edit of
+//     Model/JsGen.v (a new helper, a changed body, reordered cases) regenerates
+//     statements and proofs; only a definition in [jsimOverride] has a proof
+//     tactic of its own in ConcJsSimBase.v.
 //
 // It is not a translation of Go source; it lives in tablegen because that is
 // the step of bin/check that regenerates coq/Generated before Coq is built.
-// The file is written next to -out (only when changed); without a Model/JsGen.v
+// The files are written next to -out (only when changed); without a Model/JsGen.v
 // beside the output directory (scratch runs of tablegen) nothing is written.
 
 import (
 	"flag"
+	"fmt"
 	"os"
 	"path/filepath"
+	"regexp"
 	"strings"
 )
 
 func init() { register("95-jsgen-trace", (*gen).jsGenTrace) }
 
+// one vernacular sentence of the copied part
+type jtSent struct {
+	text   string // with the final '.', leading whitespace / comments included
+	kw     string // Definition, Fixpoint, Notation, Section, End, Variable, ...
+	name   string
+	header string // between the name and the first top-level ":="
+	body   string
+}
+
+// splits at '.' followed by whitespace, outside comments
+func jtSplit(src string) []string {
+	var out []string
+	depth, start := 0, 0
+	for i := 0; i < len(src); i++ {
+		switch {
+		case strings.HasPrefix(src[i:], "(*"):
+			depth++
+			i++
+		case strings.HasPrefix(src[i:], "*)") && depth > 0:
+			depth--
+			i++
+		case src[i] == '.' && depth == 0 && (i+1 == len(src) || src[i+1] == ' ' || src[i+1] == '\n' || src[i+1] == '\t'):
+			out = append(out, src[start:i+1])
+			start = i + 1
+		}
+	}
+	if strings.TrimSpace(src[start:]) != "" {
+		out = append(out, src[start:])
+	}
+	return out
+}
+
+func jtStripComments(s string) string {
+	var b strings.Builder
+	depth := 0
+	for i := 0; i < len(s); i++ {
+		switch {
+		case strings.HasPrefix(s[i:], "(*"):
+			depth++
+			i++
+		case strings.HasPrefix(s[i:], "*)") && depth > 0:
+			depth--
+			i++
+			b.WriteByte(' ')
+		case depth == 0:
+			b.WriteByte(s[i])
+		}
+	}
+	return b.String()
+}
+
+var (
+	jtHeadRe   = regexp.MustCompile(`^\s*(Definition|Fixpoint|Notation|Section|End|Variable|Let)\s+([A-Za-z_][A-Za-z0-9_']*)?`)
+	jtWordJ    = regexp.MustCompile(`(^|[^A-Za-z0-9_'.])J($|[^A-Za-z0-9_'])`)
+	jtAbortRe  = regexp.MustCompile(`fun _ => (OutOfModel|OutOfFuel|Diverge|Crash [A-Za-z_][A-Za-z0-9_']*|Err [A-Za-z_][A-Za-z0-9_']*)`)
+	jtStructRe = regexp.MustCompile(`\{struct ([A-Za-z_][A-Za-z0-9_']*)\}`)
+	jtMatchRe  = regexp.MustCompile(`match ([A-Za-z_][A-Za-z0-9_']*) with`)
+)
+
+func jtParse(text string) jtSent {
+	s := jtSent{text: text}
+	clean := jtStripComments(text)
+	m := jtHeadRe.FindStringSubmatch(clean)
+	if m == nil {
+		return s
+	}
+	s.kw, s.name = m[1], m[2]
+	rest := clean[strings.Index(clean, m[0])+len(m[0]):]
+	if i := strings.Index(rest, ":="); i >= 0 {
+		s.header, s.body = rest[:i], rest[i+2:]
+	} else {
+		s.header = rest
+	}
+	return s
+}
+
+// names of the binders of a header, in order ("(a c : node) {A} (x : T)" -> a c A x)
+func jtBinders(header string) []string {
+	// cut the result type: the last top-level ':' outside brackets
+	depth, cut := 0, len(header)
+	for i := 0; i < len(header); i++ {
+		switch header[i] {
+		case '(', '{':
+			depth++
+		case ')', '}':
+			depth--
+		case ':':
+			if depth == 0 && cut == len(header) {
+				cut = i
+			}
+		}
+	}
+	var names []string
+	h := header[:cut]
+	depth = 0
+	start := -1
+	for i := 0; i < len(h); i++ {
+		switch h[i] {
+		case '(', '{':
+			if depth == 0 {
+				start = i + 1
+			}
+			depth++
+		case ')', '}':
+			depth--
+			if depth == 0 && start >= 0 {
+				grp := h[start:i]
+				if strings.HasPrefix(strings.TrimSpace(grp), "struct ") {
+					start = -1
+					continue
+				}
+				if j := strings.Index(grp, ":"); j >= 0 {
+					grp = grp[:j]
+				}
+				names = append(names, strings.Fields(grp)...)
+				start = -1
+			}
+		}
+	}
+	if len(names) == 0 { // bare names without brackets
+		names = strings.Fields(h)
+	}
+	return names
+}
+
+// the primitives: rewritten by hand below, with hand-written lemmas in Proofs/ConcJsSimBase.v
+var jtPrims = map[string]bool{"J": true, "jret": true, "jfail": true, "jlift": true, "jbind": true, "jget": true, "jmod": true,
+	"jblock": true, "jwalk": true, "gen_file": true}
+
+// definitions whose proof is a named tactic of Proofs/ConcJsSimBase.v instead of the generic one
+// (recursion through a nested inductive type: the generic induction has no hypothesis for the inner lists)
+var jsimOverride = map[string]string{"jeval_part": "jsim_prove_jeval_part"}
+
+const jtErrLine = "| Err e => Err e | Crash e => Crash e | Diverge => Diverge | OutOfFuel => OutOfFuel | OutOfModel => OutOfModel"
+
 func (g *gen) jsGenTrace() {
 	// always defined, also when the derivation fails: a generator that defines nothing is charged to every property
-	g.p("(* Generated/JsGenTrace.v is derived from Model/JsGen.v *)\n")
+	g.p("(* Generated/JsGenTrace.v and Generated/JsGenSim.v are derived from Model/JsGen.v *)\n")
 	g.p("Definition jsgen_trace_derived : bool := true.\n")
 	fl := flag.Lookup("out")
 	if fl == nil || fl.Value.String() == "" {
@@ -56,57 +209,193 @@ func (g *gen) jsGenTrace() {
 		g.fail("jsgen-trace: Model/JsGen.v: cannot find the monadic part (Definition J ... End Gen.)")
 		return
 	}
-	body := src[start : end+len("End Gen.")]
+	var sents []jtSent
+	for _, t := range jtSplit(src[start : end+len("End Gen.")]) {
+		sents = append(sents, jtParse(t))
+	}
 	ok := true
-	sub := func(old, new string) {
-		if strings.Count(body, old) != 1 {
-			g.fail("jsgen-trace: Model/JsGen.v: expected exactly one occurrence of %q", old)
+	find := func(name string) *jtSent {
+		var r *jtSent
+		for i := range sents {
+			if (sents[i].kw == "Definition" || sents[i].kw == "Fixpoint") && sents[i].name == name {
+				if r != nil {
+					g.fail("jsgen-trace: Model/JsGen.v: %s is defined twice in the monadic part", name)
+					ok = false
+				}
+				r = &sents[i]
+			}
+		}
+		if r == nil {
+			g.fail("jsgen-trace: Model/JsGen.v: no definition of %s in the monadic part", name)
+			ok = false
+			return &jtSent{}
+		}
+		return r
+	}
+	// the whole sentence of a primitive, which must still have the text the replacement was written for
+	whole := func(name, expect, repl string) {
+		s := find(name)
+		if strings.Join(strings.Fields(jtStripComments(s.text)), " ") != strings.Join(strings.Fields(expect), " ") {
+			g.fail("jsgen-trace: Model/JsGen.v: the primitive %s is no longer the definition the instrumented copy replaces", name)
 			ok = false
 			return
 		}
-		body = strings.Replace(body, old, new, 1)
+		s.text = "\n" + repl
 	}
-	sub("Definition J (A : Type) := jstate -> outcome (A * jstate).",
-		"Definition J (A : Type) := St_ -> outcome (A * St_).")
-	sub("Definition jget : J jstate := fun st => Ok (st, st).",
-		"Definition jget : J jstate := fun st => Ok (lget st, ltick JRdOwn st).")
-	sub("Definition jmod (f : jstate -> jstate) : J unit := fun st => Ok (tt, f st).",
-		"Definition jmod (f : jstate -> jstate) : J unit := fun st => Ok (tt, ltick JWrOwn (lput (f (lget st)) st)).")
+	sub := func(name, old, new string) {
+		s := find(name)
+		if strings.Count(s.text, old) != 1 {
+			g.fail("jsgen-trace: Model/JsGen.v: expected exactly one occurrence of %q in %s", old, name)
+			ok = false
+			return
+		}
+		s.text = strings.Replace(s.text, old, new, 1)
+	}
+	const errPairs = "| (Err e, s_) => (Err e, s_) | (Crash e, s_) => (Crash e, s_) | (Diverge, s_) => (Diverge, s_) | (OutOfFuel, s_) => (OutOfFuel, s_) | (OutOfModel, s_) => (OutOfModel, s_)"
+	whole("J", "Definition J (A : Type) := jstate -> outcome (A * jstate).",
+		"Definition J (A : Type) := St_ -> outcome A * St_.")
+	whole("jret", "Definition jret {A} (x : A) : J A := fun st => Ok (x, st).",
+		"Definition jret {A} (x : A) : J A := fun st => (Ok x, st).")
+	whole("jfail", "Definition jfail {A} (m : bstr) : J A := fun _ => Err m.",
+		"Definition jfail {A} (m : bstr) : J A := fun st => (Err m, st).\n"+
+			"(* every literal [fun _ => <outcome>] of the model *)\nDefinition jabort {A} (x : outcome A) : J A := fun st => (x, st).")
+	whole("jlift", "Definition jlift {A} (o : outcome A) : J A := fun st => match o with Ok v => Ok (v, st) | Err m => Err m | Crash m => Crash m | Diverge => Diverge | OutOfFuel => OutOfFuel | OutOfModel => OutOfModel end.",
+		"Definition jlift {A} (o : outcome A) : J A := fun st => (o, st).")
+	whole("jbind", "Definition jbind {A B} (m : J A) (f : A -> J B) : J B := fun st => match m st with | Ok (x, st') => f x st' "+jtErrLine+" end.",
+		"Definition jbind {A B} (m : J A) (f : A -> J B) : J B :=\n  fun st => match m st with\n            | (Ok x, st') => f x st'\n            "+errPairs+"\n            end.")
+	whole("jget", "Definition jget : J jstate := fun st => Ok (st, st).",
+		"Definition jget : J jstate := fun st => (Ok (lget st), ltick JRdOwn st).")
+	whole("jmod", "Definition jmod (f : jstate -> jstate) : J unit := fun st => Ok (tt, f st).",
+		"Definition jmod (f : jstate -> jstate) : J unit := fun st => (Ok tt, ltick JWrOwn (lput (f (lget st)) st)).\n"+
+			"Definition jtick (a : jacc) : J unit := fun st => (Ok tt, ltick a st).")
 	// state.block: the sub-generator runs on the same underlying state (so that its accesses are logged); the
 	// parent's record is restored afterwards with the shared map
-	sub("match w n sub with", "match w n (lput sub st0) with")
-	sub("| Ok (_, sub') => Ok (rev (j_out sub'), set_called (j_called sub') st0)",
-		"| Ok (_, sub_) => let sub' := lget sub_ in Ok (rev (j_out sub'), lput (set_called (j_called sub') (lget st0)) sub_)")
-	sub("| S f => jwalk_body (jwalk f) n",
-		"| S f => jbind (fun st => Ok (tt, ltick (JRdAst (pos_of n)) st)) (fun _ => jwalk_body (jwalk f) n)")
-	sub("Definition gen_file (fuel : nat) (name : bstr) (body : list node) : outcome (list chunk) :=",
-		"Definition gen_file (s0 : St_) (fuel : nat) (name : bstr) (body : list node) : outcome (list chunk * St_) :=")
-	sub("match visit_file fuel name body jinit_state with", "match visit_file fuel name body (lput jinit_state s0) with")
-	sub("| Ok (_, st) =>", "| Ok (_, st_) => let st := lget st_ in")
-	sub("Ok (imports ++ rev (j_out st))", "Ok (imports ++ rev (j_out st), st_)")
+	sub("jblock", "match w n sub with", "match w n (lput sub st0) with")
+	sub("jblock", "| Ok (_, sub') => Ok (rev (j_out sub'), set_called (j_called sub') st0)",
+		"| (Ok _, sub_) => let sub' := lget sub_ in (Ok (rev (j_out sub')), lput (set_called (j_called sub') (lget st0)) sub_)")
+	sub("jblock", jtErrLine, errPairs)
+	sub("jwalk", "| S f => jwalk_body (jwalk f) n",
+		"| S f => jbind (jtick (JRdAst (pos_of n))) (fun _ => jwalk_body (jwalk f) n)")
+	sub("gen_file", "Definition gen_file (fuel : nat) (name : bstr) (body : list node) : outcome (list chunk) :=",
+		"Definition gen_file (s0 : St_) (fuel : nat) (name : bstr) (body : list node) : outcome (list chunk) * St_ :=")
+	sub("gen_file", "match visit_file fuel name body jinit_state with", "match visit_file fuel name body (lput jinit_state s0) with")
+	sub("gen_file", "| Ok (_, st) =>", "| (Ok _, st_) => let st := lget st_ in")
+	sub("gen_file", "Ok (imports ++ rev (j_out st))", "(Ok (imports ++ rev (j_out st)), st_)")
+	sub("gen_file", jtErrLine, errPairs)
 	if !ok {
 		return
 	}
+	// literal aborts, in every sentence that is not a rewritten primitive
+	for i := range sents {
+		s := &sents[i]
+		if (s.kw == "Definition" || s.kw == "Fixpoint") && jtPrims[s.name] && s.name != "jwalk" {
+			continue
+		}
+		s.text = jtAbortRe.ReplaceAllString(s.text, "jabort ($1)")
+	}
+
+	// ---------------- Generated/JsGenTrace.v ----------------
 	var b strings.Builder
 	b.WriteString("(* GENERATED by /verif/go/cmd/tablegen (jsgentrace.go) from coq/Model/JsGen.v.\n")
 	b.WriteString("   Do not edit: regenerated on every check run.  The monadic part of the JavaScript\n")
 	b.WriteString("   generator model, verbatim, over an abstract state (a lens onto [jstate] and a\n")
-	b.WriteString("   logger); only the primitives J, jget, jmod, jblock's sub-run, jwalk's node visit and\n")
-	b.WriteString("   gen_file's initial state are changed.  Definitions only. *)\n")
+	b.WriteString("   logger, one record [jlens]); only the primitives J, jret, jfail, jlift, jbind, jget, jmod,\n")
+	b.WriteString("   the literal aborts, jblock's sub-run, jwalk's node visit and gen_file's initial / final\n")
+	b.WriteString("   state are changed.  A failing run keeps its state, hence its log.  Definitions only. *)\n")
 	b.WriteString("From Soy Require Import Model.Bytes Model.Num Model.Values Model.Outcome Model.Ast Model.Utf8 Model.JsEscape\n  Generated.Tables Model.JsGen.\n")
 	b.WriteString("Open Scope N_scope.\n\n")
 	b.WriteString("(* what the generator touches: a node of the syntax tree (shared, read), its own record (read / written) *)\n")
 	b.WriteString("Inductive jacc := JRdAst (pos : N) | JRdOwn | JWrOwn.\n\n")
-	b.WriteString("(* a module of its own: the copy reuses every name of Model/JsGen.v *)\nModule JT.\nSection Lens.\nVariable St_ : Type.\nVariable lget : St_ -> jstate.\nVariable lput : jstate -> St_ -> St_.\nVariable ltick : jacc -> St_ -> St_.\n\n")
-	b.WriteString(body)
+	b.WriteString("(* the state of the instrumented generator: a lens onto the model's record and a logger *)\n")
+	b.WriteString("Record jlens := {\n  l_St : Type;\n  l_get : l_St -> jstate;\n  l_put : jstate -> l_St -> l_St;\n  l_tick : jacc -> l_St -> l_St;\n}.\n\n")
+	b.WriteString("(* a module of its own: the copy reuses every name of Model/JsGen.v *)\nModule JT.\nSection Lens.\nVariable L : jlens.\n")
+	b.WriteString("Local Notation St_ := (l_St L).\nLocal Notation lget := (l_get L).\nLocal Notation lput := (l_put L).\nLocal Notation ltick := (l_tick L).\n\n")
+	for _, s := range sents {
+		b.WriteString(s.text)
+	}
 	b.WriteString("\nEnd Lens.\nEnd JT.\n")
-	content := b.String()
-	outPath := filepath.Join(outDir, "JsGenTrace.v")
-	old, _ := os.ReadFile(outPath)
-	if string(old) != content {
-		if err := os.WriteFile(outPath, []byte(content), 0o644); err != nil {
-			g.fail("jsgen-trace: cannot write %s", outPath)
-			return
+	writeIfChanged := func(name, content string) {
+		outPath := filepath.Join(outDir, name)
+		old, _ := os.ReadFile(outPath)
+		if string(old) != content {
+			if err := os.WriteFile(outPath, []byte(content), 0o644); err != nil {
+				g.fail("jsgen-trace: cannot write %s", outPath)
+			}
 		}
 	}
+	writeIfChanged("JsGenTrace.v", b.String())
+
+	// ---------------- Generated/JsGenSim.v ----------------
+	var p strings.Builder
+	p.WriteString("(* GENERATED by /verif/go/cmd/tablegen (jsgentrace.go) from coq/Model/JsGen.v.\n")
+	p.WriteString("   Do not edit: regenerated on every check run.  One simulation lemma per J-typed definition of\n")
+	p.WriteString("   the monadic part of Model/JsGen.v, in source order: the instrumented copy (Generated/JsGenTrace.v,\n")
+	p.WriteString("   over ANY lawful lens) computes, through the lens, what the model computes.  Statements are computed\n")
+	p.WriteString("   from the types (JSIM), proofs are the generic tactics of Proofs/ConcJsSimBase.v. *)\n")
+	p.WriteString("From Coq Require Import List Arith Bool.\n")
+	p.WriteString("From Soy Require Import Model.Bytes Model.Num Model.Values Model.Outcome Model.Ast Model.JsGen Generated.JsGenTrace Proofs.ConcJsSimBase.\n")
+	p.WriteString("Import ListNotations.\nOpen Scope N_scope.\n\n")
+	p.WriteString("Section Sim.\nVariable L : jlens.\nHypothesis HL : jlens_ok L.\n\n")
+	p.WriteString("(* the lemmas proved so far, looked up by head constant by the generic tactic: jsim_db_0 is the primitives *)\n")
+	p.WriteString("Ltac jsim_db_0 h := lazymatch h with @JT.jblock => eapply (jsim_jblock L HL) end.\nLtac jsim_db h ::= jsim_db_0 h.\n\n")
+	var names []string
+	for _, s := range sents {
+		if s.kw != "Definition" && s.kw != "Fixpoint" {
+			continue
+		}
+		// jwalk is a rewritten primitive (one tick before the body) whose lemma is still the generic induction
+		if (jtPrims[s.name] && s.name != "jwalk") || !jtWordJ.MatchString(s.header) {
+			continue
+		}
+		names = append(names, s.name)
+		tac := ""
+		if ov, isOv := jsimOverride[s.name]; isOv {
+			tac = ov + " ltac:(fun _ => cbn [JT." + s.name + " JsGen." + s.name + "])"
+		} else if s.kw == "Definition" {
+			tac = "jsim_def ltac:(fun _ => unfold JT." + s.name + ", JsGen." + s.name + ")"
+		} else {
+			bs := jtBinders(s.header)
+			sv := ""
+			if m := jtStructRe.FindStringSubmatch(s.header); m != nil {
+				sv = m[1]
+			} else {
+				for _, m := range jtMatchRe.FindAllStringSubmatch(s.body, -1) {
+					for _, x := range bs {
+						if x == m[1] {
+							sv = x
+						}
+					}
+					if sv != "" {
+						break
+					}
+				}
+			}
+			idx := -1
+			for i, x := range bs {
+				if x == sv {
+					idx = i
+				}
+			}
+			if idx < 0 {
+				g.fail("jsgen-trace: Model/JsGen.v: cannot tell the structural argument of Fixpoint %s", s.name)
+				continue
+			}
+			tac = fmt.Sprintf("jsim_fix constr:(%d%%nat) ltac:(fun _ => cbn [JT.%s JsGen.%s])", len(bs)-1-idx, s.name, s.name)
+		}
+		fmt.Fprintf(&p, "Lemma jsim_%s : JSIM (@JT.%s L) (@JsGen.%s).\nProof. %s. Qed.\nLtac jsim_db_%d h := lazymatch h with @JT.%s => eapply jsim_%s | _ => jsim_db_%d h end.\nLtac jsim_db h ::= jsim_db_%d h.\n\n",
+			s.name, s.name, s.name, tac, len(names), s.name, s.name, len(names)-1, len(names))
+	}
+	p.WriteString("Lemma jsim_visit_file_walk : forall o fuel name body, jsim L (JT.visit_file L o fuel name body) (JsGen.visit_file o fuel name body).\n")
+	p.WriteString("Proof. intros. eapply jsim_visit_file; try reflexivity. Qed.\n\n")
+	p.WriteString("(* soyjs.Write: from ANY initial state of the instrumented generator, the outcome is the model's *)\n")
+	p.WriteString("Theorem gen_file_sim : forall o s0 fuel name body, fst (JT.gen_file L o s0 fuel name body) = JsGen.gen_file o fuel name body.\n")
+	p.WriteString("Proof. intros. jsim_prove_gen_file L HL (jsim_visit_file_walk o fuel name body). Qed.\n\n")
+	p.WriteString("End Sim.\n\n")
+	fmt.Fprintf(&p, "(* the definitions covered: %d, + the primitives jret jfail jabort jlift jbind jget jmod jtick jblock and gen_file *)\n", len(names))
+	fmt.Fprintf(&p, "Definition jsim_covered : list nat := List.repeat 0%%nat %d.\n", len(names))
+	if !ok {
+		return
+	}
+	writeIfChanged("JsGenSim.v", p.String())
+	g.js["jsgen_sim_definitions"] = names
 }
